@@ -24,5 +24,11 @@ CLAIMS = {
     "C18": pending("C18", "colour-flip antisymmetry decided by the harness + correspondence with the model (theorems pending)"),
     "C19": pending("C19", "UCI text and read-back vs model vs standard form (theorems pending)"),
 }
-for _p in ("C07", "C08", "C09", "C10", "C14", "C15", "C17"):
+CLAIMS["C07"] = pending("C07", "search answer vs the rules' legal set and board snapshot equality, all depths and pool sizes (theorems pending)")
+CLAIMS["C08"] = pending("C08", "search (score, move) vs exact minimax of the extracted Rocq model (theorems pending)")
+CLAIMS["C10"] = pending("C10", "count_positions vs cumulative perft of the rules spec (theorems pending)")
+CLAIMS["C14"] = pending("C14", "Game API accept/reject vs model and legality, snapshots around rejected inputs (theorems pending)")
+CLAIMS["C15"] = pending("C15", "book trie vs translated lines; engine move legality at every book node and supplied positions (theorems pending)")
+CLAIMS["C17"] = pending("C17", "registration counts vs reference multiset of full positions and vs the model (theorems pending)")
+for _p in ("C09",):
     CLAIMS[_p] = {"not_applicable": True, "reason": "check under construction in this session (not a limitation of the technique); not claimed until it runs"}
